@@ -5,3 +5,7 @@ import panelmat
 def run(tier, seed, build):
     return panelmat.run_prop("C08", ["fint", "kT"], tier, seed, build, nrand_quick=16, nrand_thorough=200,
                              what="the gradient / Hessian of the quartic strain energy")
+
+
+def replay(path, build):
+    return panelmat.replay_file("C08", path, build)
